@@ -60,8 +60,9 @@ TRUSTED = [
     'instance (FS, series for atan) is only compared with the implementation '
     'at 1e-9 scaled; decimal -> binary64 of number tokens is reproduced '
     'exactly for <= 15 digits',
-    'the SURF/VOLU text written by the converter is read back by '
-    'impl.T4File/t4eval (harness); str(float) rendering is not modelled',
+    'the SURF/VOLU/TRANSFORM text written by the converter is read back by '
+    'impl.T4File/t4eval (harness), one card per deck and several cards per '
+    'deck (with TR numbers); str(float) rendering is not modelled',
     'harness: generators, mcnpref, t4eval, geomcheck, PEG shim replacing TatSu',
 ]
 ASSUMPTIONS = [
@@ -1171,6 +1172,8 @@ def _run(res, tier, seed, proofs_ok):
                           f'oracle failed on {mn} {prm}: {detail}',
                           {'input': {'mnemonic': mn, 'params': prm}},
                           found_input=False)
+    import c02_multi
+    c02_multi.run_multi(res, rng, quick)
     res.obligation(f'sweep ran ({n_sweep} probe decks, membership of the two '
                    'probe volumes vs the sign of f_M)', n_sweep > 0, '')
     res.extra['sweep_cards'] = n_sweep
@@ -1302,6 +1305,12 @@ def replay(path):
         detail.pop('deck', None)
         print('oracle (probe deck):', status, detail)
         print('finding class:', finding_class(mn, prm, status, detail))
+    elif 'deck' in inp:
+        conv = impl.convert(inp['deck'])
+        print('conversion:', conv.ok, conv.exc, (conv.msg or '')[:200])
+        if conv.text:
+            print('\n'.join(l for l in conv.text.splitlines()
+                            if l.strip().startswith(('SURF', 'TRANSFORM'))))
     elif 'dict' in inp:
         dic = [(k, [tuple(x) for x in v]) for k, v in inp['dict']]
         print('implementation:', impl_number(dic))
